@@ -151,7 +151,7 @@ def mon_guards(lines, c, want):
                         if cur_round["cancelled"] and "C03" in want:
                             return idx, "%s of %s consulted although the round was already cancelled" % (l.meth, l.who)
                         cur_round["guards"].append(l)
-                        if (pend != cur_round["pend"] or cur != cur_round["cur"]) and "C03" in want:
+                        if (pend != cur_round["pend"] or cur != cur_round["cur"]) and ("C03" in want or "C06" in want):
                             return idx, "guards of one round see different pending/current transitions"
                     if not activation and "C03" in want:
                         if l.meth == "exitGuard" and a0 is not None and who_id(l.who) != a0:
@@ -178,7 +178,7 @@ def mon_guards(lines, c, want):
             return rounds[-1]["idx"], "%d guard rounds in one %s call, the substitution limit is %d" % (len(trounds), call.op, limit)
         survivor = None
         for r in trounds:
-            if "C03" in want and r["cur"] != survivor and not (activation and r is rounds[0]):
+            if ("C03" in want or "C06" in want) and r["cur"] != survivor and not (activation and r is rounds[0]):
                 # the transition accepted so far, as the guards see it
                 if (r["cur"] and survivor and r["cur"][:2] != survivor[:2]) or (bool(r["cur"]) != bool(survivor)):
                     return r["idx"], "guards see current transition %s but the last surviving request is %s" % (r["cur"], survivor)
@@ -310,6 +310,8 @@ def mon_C06(lines, c):
             last_cb = None
     return None
 mon_C06.applies = lambda c: True
+def mon_C06_guards(lines, c): return mon_guards(lines, c, {"C06"})
+mon_C06_guards.applies = lambda c: c["inj_state"] == 0 and c["inj_root"] == 0 and c["defstate"] == FULL and (c["defroot"] == FULL or not c["head"]) and not c["plans"]
 
 # ------------------------------------------------------------------------------------------------
 def mon_C07(lines, c): return mon_guards(lines, c, {"C07"})
@@ -391,10 +393,14 @@ def mon_plans(lines, c, want):
         if call.op == "loadfrom":           # load() discards the plan before it runs any callback
             PL[i] = []; SU[i] = set(); FA[i] = set(); PE[i] = False
         a0 = A.get(i)
+        snap = None      # (failure outstanding for the active state, plan exists) at the moment of the plan step
         last_cb = None; fired = []; plan_cb = []; to_clear = set(); pending_outcome_clear = False
         fail_by_active = False; any_fail = False; any_succeed = False; in_phase = False
         evs = call.ev
         for k, (idx, l) in enumerate(evs):
+            if snap is None and ((l.kind == "cb" and l.meth not in T.PHASE) or (l.kind == "log" and l.what == "transition" and l.args[0] != "255"
+                                 and not (k + 1 < len(evs) and evs[k + 1][1].kind == "did"))):
+                snap = (a0 in FA[i], PE[i])
             if l.kind == "cb":
                 if pending_outcome_clear:
                     PL[i] = []; SU[i] = set(); FA[i] = set(); pending_outcome_clear = False
@@ -452,7 +458,13 @@ def mon_plans(lines, c, want):
         if call.op in ("update", "react") and "C09" in want:
             kinds = [l.meth for _, l in plan_cb]
             if len(kinds) > 1: return plan_cb[1][0], "two plan outcome callbacks in one cycle: %s" % kinds
-        if call.op in ("exit", "destroy", "loadfrom"):
+            # converse: a failure outstanding for the active state (reported in this cycle or latched) on a machine that has a plan
+            # must be answered by planFailed() in this very cycle
+            if snap is None: snap = (a0 in FA[i], PE[i])
+            if snap[0] and snap[1] and "planFailed" not in kinds:
+                return call.start, "state %s has a failure outstanding and a plan exists, yet %s() delivered %s instead of planFailed" % (a0, call.op, kinds or "no plan outcome")
+        # (load() discards the plan before it runs callbacks when the loader stays or becomes active, after them when it ends inactive)
+        if call.op in ("exit", "destroy") or (call.op == "loadfrom" and call.obs is not None and call.obs.f.get("on") == "0"):
             PL[i] = []; SU[i] = set(); FA[i] = set(); PE[i] = False
             if call.op == "loadfrom" and call.obs is not None: A[i] = None if call.obs.f["active"] == "255" else int(call.obs.f["active"])
         if call.op in ("enter", "replayEnter", "replayTransition", "loadfrom") and call.obs is not None:
@@ -636,9 +648,31 @@ def mon_C16(lines, c):
     return None
 mon_C16.applies = lambda c: True
 
-MONITORS = {"C01": [mon_C01], "C02": [mon_C02], "C03": [mon_C03], "C04": [mon_C04], "C05": [mon_C05], "C06": [mon_C06],
+
+# ------------------------------------------------------------------------------------------------
+def mon_C17(lines, c):
+    """A copy-constructed instance is observationally equal to the original at the moment of copying."""
+    last = {}
+    pend = None
+    for idx, l in enumerate(lines):
+        if l.kind == "api" and l.phase == "begin" and l.op == "copy":
+            pend = (l.inst, int(l.args[0]))
+        elif l.kind == "cb" and pend is not None and l.inst == pend[0]:
+            return idx, "the copy constructor ran a callback on the new instance"
+        elif l.kind == "obs":
+            if pend is not None and l.inst == pend[0]:
+                src = last.get(pend[1])
+                if src is not None:
+                    a = l.raw.split(" ", 2)[2]; b = src.raw.split(" ", 2)[2]
+                    if a != b: return idx, "the copy reports [%s], the original [%s]" % (a, b)
+                pend = None
+            last[l.inst] = l
+    return None
+mon_C17.applies = lambda c: True
+
+MONITORS = {"C01": [mon_C01], "C02": [mon_C02], "C03": [mon_C03], "C04": [mon_C04], "C05": [mon_C05], "C06": [mon_C06, mon_C06_guards],
             "C07": [mon_C07, mon_C07_payload], "C08": [mon_C08], "C09": [mon_C09], "C10": [mon_C10], "C11": [mon_C11],
-            "C12": [mon_C12], "C15": [mon_C15], "C16": [mon_C16]}
+            "C12": [mon_C12], "C15": [mon_C15], "C16": [mon_C16], "C17": [mon_C17]}
 
 def run_monitors(pid, trace_text, c):
     lines = T.parse(trace_text)
